@@ -1789,6 +1789,18 @@ func (db *DB) dropAll() (func(), error) {
 	defer db.lock.Unlock()
 
 	y.VerifPoint("dropall.locked")
+	// Drop the tree before the memtables. The memtables (and their WAL files) hold the newest
+	// versions; if they went first, a crash right afterwards would leave the tables behind and
+	// re-open would show older values of the keys than the ones DropAll was called on. With the
+	// tree gone first, a crash leaves at most the newest versions, which is what was there
+	// before the drop.
+	num, err := db.lc.dropTree()
+	if err != nil {
+		return resume, err
+	}
+	db.opt.Infof("Deleted %d SSTables. Now deleting memtables and value logs...\n", num)
+	y.VerifPoint("dropall.tree")
+
 	// Remove inmemory tables. Calling DecrRef for safety. Not sure if they're absolutely needed.
 	db.mt.DecrRef()
 	for _, mt := range db.imm {
@@ -1799,14 +1811,7 @@ func (db *DB) dropAll() (func(), error) {
 	if err != nil {
 		return resume, y.Wrapf(err, "cannot open new memtable")
 	}
-
 	y.VerifPoint("dropall.memtables")
-	num, err := db.lc.dropTree()
-	if err != nil {
-		return resume, err
-	}
-	db.opt.Infof("Deleted %d SSTables. Now deleting value logs...\n", num)
-	y.VerifPoint("dropall.tree")
 
 	num, err = db.vlog.dropAll()
 	if err != nil {
